@@ -30,27 +30,32 @@ def _lst(x, prefix, n):
     return [x['%s%d' % (prefix, i)] for i in range(n)]
 
 
+def _ops(d, x):
+    # operands of an n-ary gate: d['n'] inputs of one width, or one input per width listed in d['ws']
+    return _lst(x, 'in', len(ints(d['ws'])) if d.get('ws') else d['n'])
+
+
 # ---------------------------------------------------------------- gates
 
 def r_and(d, x):
     v = M(d['w'])
-    for a in _lst(x, 'in', d['n']):
+    for a in _ops(d, x):
         v &= a
     return {'r': v}
 
 
 def r_or(d, x):
     v = 0
-    for a in _lst(x, 'in', d['n']):
+    for a in _ops(d, x):
         v |= a
-    return {'r': v}
+    return {'r': v & M(d['w'])}
 
 
 def r_xor(d, x):
     v = 0
-    for a in _lst(x, 'in', d['n']):
+    for a in _ops(d, x):
         v ^= a
-    return {'r': v}
+    return {'r': v & M(d['w'])}
 
 
 def r_nor(d, x):
